@@ -147,6 +147,9 @@ func runReplay(path string) int {
 	obs := p.Observed
 	q := clonePlan(p)
 	q.Observed = nil
+	if n := env.remapSites(q); n > 0 {
+		fmt.Printf("re-mapped %d instrumentation site id(s) to this tree's numbering\n", n)
+	}
 	v := c.reproduces(q, obs.Class)
 	if v == nil && strings.HasPrefix(obs.Class, "race:") {
 		for i := 0; i < 2 && v == nil; i++ {
